@@ -650,11 +650,13 @@ def run_caller(c):
                 self._rec["calls"].append((dict(kw), {"err": type(e).__name__, "msg": str(e)[:200]}))
                 raise
     feats = None if c.get("features") is None else [t if isinstance(t, str) else num(t) for t in c["features"]]
-    modname = {"linucb": "coba.learners.linucb", "lints": "coba.learners.lints", "synthetic": "coba.environments.synthetics"}[c["kind"]]
+    modname = {"linucb": "coba.learners.linucb", "lints": "coba.learners.lints", "synthetic": "coba.environments.synthetics",
+               "synthetic_env": "coba.environments.synthetics"}[c["kind"]]
+    arg = caller_arg(c, feats)
     mod = importlib.import_module(modname)
     saved = mod.InteractionsEncoder
     fake = None
-    if c["kind"] != "synthetic":
+    if c["kind"] in ("linucb", "lints"):
         try:
             import numpy  # noqa: F401
         except ImportError:
@@ -668,13 +670,21 @@ def run_caller(c):
         mod.InteractionsEncoder = Rec
         with capped_memory():
             if c["kind"] == "synthetic":
-                kwf = {} if feats is None else {"reward_features": feats}
+                kwf = {} if feats is None else {"reward_features": arg}
                 sim = mod.LinearSyntheticSimulation(3, n_actions=2, n_context_features=c["nctx"], n_action_features=c["nact"],
                                                     n_coefficients=None, seed=c.get("seed", 1), **kwf)
                 list(sim.read())
+            elif c["kind"] == "synthetic_env":
+                # the public entry point: Environments.from_linear_synthetic (one simulation per seed)
+                from coba.environments import Environments
+                kwf = {} if feats is None else {"reward_features": arg}
+                envs = Environments.from_linear_synthetic(3, n_actions=2, n_context_features=c["nctx"], n_action_features=c["nact"],
+                                                          n_coefficients=None, seed=c.get("seeds", c.get("seed", 1)), **kwf)
+                for env in envs:
+                    list(env.read())
             else:
                 cls = mod.LinUCBLearner if c["kind"] == "linucb" else mod.LinTSLearner
-                lrn = cls() if feats is None else cls(features=feats)
+                lrn = cls() if feats is None else cls(features=arg)
                 ctx = build_val(c["context"])
                 acts = [build_val(a) for a in c["actions"]]
                 lrn.predict(ctx, acts)
@@ -685,6 +695,18 @@ def run_caller(c):
         if fake is not None and sys.modules.get("numpy") is fake:
             del sys.modules["numpy"]
     return rec, outcome
+
+
+def caller_arg(c, feats):
+    """the term argument in the shape the case asks for: a list, a tuple, or - one term only - the bare str"""
+    if feats is None:
+        return None
+    shape = c.get("shape", "list")
+    if shape == "tuple":
+        return tuple(feats)
+    if shape == "str" and len(feats) == 1 and isinstance(feats[0], str):
+        return feats[0]
+    return list(feats)
 
 
 def canon_terms(ts):
@@ -734,7 +756,9 @@ class C20(Property):
             "between calls; term lists with several constants or constants only favoured); value pools also include exact big ints "
             "(2**53+1, primes near 2**31 and 2**62) and Fractions, compared exactly on the dense and the sparse path, with a check that "
             "exact inputs give exact (non-float) results; 14% of the cases use arbitrary doubles (products round; tolerance of "
-            "encode_float_model); 4% run the real LinUCB / LinTS / LinearSyntheticSimulation with random feature lists, contexts and "
+            "encode_float_model); 6% run the real entry points that hand terms to InteractionsEncoder - LinUCBLearner, LinTSLearner, LinearSyntheticSimulation and "
+            "Environments.from_linear_synthetic (one or several seeds) - with the term argument in every accepted shape (list, tuple, a bare "
+            "str = ONE term, numeric constants, defaults), random contexts and "
             "feature counts and compare the term list they hand to the encoder with learnerTerms / syntheticTerms, and judge every encode "
             "call they make; dense lengths are checked against the binomial formula independently of the values; non-trivial = at least one term and at least 3 expected entries; distinct by canonical JSON of the case")
     trusted_base = [
@@ -953,7 +977,7 @@ class C20(Property):
         return {"terms": terms, "ns": ns}
 
     def gen_caller(self, rng):
-        kind = rng.choice(["linucb", "lints", "synthetic"])
+        kind = rng.choice(["linucb", "lints", "synthetic", "synthetic_env", "synthetic_env"])
         P = lambda k, off: {"k": "dense", "v": [{"n": [p, 1]} for p in PRIMES[off:off + k]], "wrap": "list"}
         n = W(rng, [(1, 3), (2, 5), (3, 4), (4, 2)])
         feats = [self.gen_term(rng, ["x", "a"], False)[:6] for _ in range(n)]
@@ -961,8 +985,14 @@ class C20(Property):
             feats.insert(rng.below(len(feats) + 1), rng.choice(feats))
         if rng.chance(0.35):
             feats += rng.choice([["x"], ["a"], ["xx"], ["x", "xa"]])
-        if kind == "synthetic":
-            return {"caller": {"kind": kind, "features": feats, "nctx": rng.choice([0, 0, 1, 2, 3]), "nact": rng.choice([0, 1, 2, 2]), "seed": rng.randint(1, 5)}}
+        if kind in ("synthetic", "synthetic_env"):
+            shape = W(rng, [("list", 4), ("tuple", 3), ("str", 4)])
+            if shape == "str":      # a single term given as a bare str is ONE term
+                feats = [rng.choice([f for f in feats if len(f) > 1] or ["xa"])]
+            c = {"kind": kind, "features": feats, "shape": shape, "nctx": rng.choice([0, 1, 2, 2, 3]), "nact": rng.choice([0, 1, 2, 2]), "seed": rng.randint(1, 5)}
+            if kind == "synthetic_env" and rng.chance(0.3):
+                c["seeds"] = [rng.randint(1, 5), rng.randint(6, 9)]
+            return {"caller": c}
         for _ in range(W(rng, [(0, 3), (1, 5), (2, 2)])):
             feats.insert(0 if rng.chance(0.6) else rng.below(len(feats) + 1), rng.choice([{"n": [1, 1]}, {"n": [1, 1]}, {"n": [0, 1]}, {"n": [2, 1]}, {"n": [1, 1], "f": True}]))
         if rng.chance(0.08):
@@ -970,10 +1000,10 @@ class C20(Property):
         ctx = W(rng, [({"k": "none"}, 4), ({"k": "dense", "v": [], "wrap": "list"}, 2), (P(rng.randint(1, 3), 0), 6), ({"k": "scalar", "v": {"n": [7, 1]}}, 1)])
         na = rng.randint(1, 3)
         acts = [{"k": "dense", "v": [{"n": [PRIMES[4 + i * 3 + j], 1]} for j in range(na)], "wrap": rng.choice(["list", "tuple"])} for i in range(2)]
-        return {"caller": {"kind": kind, "features": feats, "context": ctx, "actions": acts}}
+        return {"caller": {"kind": kind, "features": feats, "shape": rng.choice(["list", "list", "tuple"]), "context": ctx, "actions": acts}}
 
     def generate(self, rng, tier, focus=False):
-        if not focus and rng.chance(0.04):
+        if not focus and rng.chance(0.06):
             return self.gen_caller(rng)
         case = self.gen_call(rng, tier, focus)
         self.subclass_strings(rng, case["ns"])
@@ -1233,6 +1263,16 @@ class C20(Property):
             {"caller": {"kind": "synthetic", "features": None, "nctx": 2, "nact": 2}},
             {"caller": {"kind": "synthetic", "features": None, "nctx": 0, "nact": 2}},
             {"caller": {"kind": "synthetic", "features": None, "nctx": 2, "nact": 0}},
+            # every accepted shape of the term argument through the public entry points (seeded round c20d: d-m1)
+            {"caller": {"kind": "synthetic_env", "features": ["xa"], "shape": "str", "nctx": 2, "nact": 3, "seed": 3}},
+            {"caller": {"kind": "synthetic_env", "features": ["xxa"], "shape": "str", "nctx": 2, "nact": 2, "seeds": [1, 2]}},
+            {"caller": {"kind": "synthetic_env", "features": ["a", "xa"], "shape": "tuple", "nctx": 2, "nact": 2, "seed": 1}},
+            {"caller": {"kind": "synthetic_env", "features": ["xa", "xa", "x"], "shape": "list", "nctx": 1, "nact": 2, "seed": 1}},
+            {"caller": {"kind": "synthetic_env", "features": None, "nctx": 2, "nact": 2, "seed": 1}},
+            {"caller": {"kind": "synthetic_env", "features": ["xa"], "shape": "str", "nctx": 0, "nact": 2, "seed": 1}},
+            {"caller": {"kind": "synthetic", "features": ["xa"], "shape": "str", "nctx": 2, "nact": 2, "seed": 1}},
+            {"caller": {"kind": "linucb", "features": [one, "a", "ax"], "shape": "tuple", "context": P(2, 3), "actions": [P(5, 7), P(11, 13)]}},
+            {"caller": {"kind": "lints", "features": [one, "a", "xxa"], "shape": "tuple", "context": {"k": "none"}, "actions": [P(5), P(11)]}},
             # histories on one encoder object (minimised seeded mutants m2-m4 of round c20b)
             {"terms": ["x", "xx"], "ns": [["x", D({"s": "a"}, {"n": [3, 1]})]], "hist": [[["x", P(2, 3)]], [["x", D({"n": [5, 1]}, {"s": "b"})]]]},
             {"terms": ["x", "xx"], "ns": [["x", P(2, 3)]], "hist": [[["x", D({"s": "a"}, {"n": [3, 1]})]], [["x", P(5, 7)]]]},
@@ -1311,9 +1351,27 @@ class C20(Property):
         if not rec:
             return {"fails": [], "tags": tags + ["caller:no-encoder(%s)" % outcome.split(":")[0]], "nontrivial": False, "impl": outcome, "model": None}
         eff = rec[-1]["terms"]
-        has_ctx = bool(build_val(c["context"])) if c["kind"] != "synthetic" else True
-        tags.append("caller:%s" % ("as-given" if (c["kind"] != "synthetic" and has_ctx) else "rewritten"))
-        derived = c["kind"] == "synthetic" or not has_ctx or c.get("features") is None
+        syn = c["kind"] in ("synthetic", "synthetic_env")
+        has_ctx = True if syn else bool(build_val(c["context"]))
+        tags.append("caller:%s" % ("as-given" if (not syn and has_ctx) else "rewritten"))
+        tags.append("caller-arg:" + (c.get("shape", "list") if c.get("features") is not None else "default"))
+        derived = syn or not has_ctx or c.get("features") is None
+        if c.get("features") is not None:
+            # (B) the encoder the entry point ends up using has exactly the terms the caller passed (a bare str is ONE term)
+            passed = [t if isinstance(t, str) else num(t) for t in c["features"]]
+            dd0 = lambda ts: [t for i, t in enumerate(ts) if t not in ts[:i]]
+            shown = caller_arg(c, passed)
+            if syn and c["nctx"] > 0 and c["nact"] > 0:
+                want = dd0([t for t in passed if t != ""])
+                for r in rec:
+                    if dd0([t for t in r["terms"] if t != ""]) != want:
+                        fails.append(F("B", "%s(reward_features=%r) ended up with an encoder for the terms %r, not for the terms passed"
+                                       % ("Environments.from_linear_synthetic" if c["kind"] == "synthetic_env" else "LinearSyntheticSimulation", shown, r["terms"]),
+                                       "caller-terms-differ:%s" % c.get("shape", "list")))
+                        break
+            elif not syn and list(rec[0]["terms"]) != passed:
+                fails.append(F("B", "%s(features=%r) built its encoder for the terms %r, not for the terms passed" % (c["kind"], shown, rec[0]["terms"]),
+                               "caller-terms-differ:%s" % c.get("shape", "list")))
         if c.get("features") is None:
             tags.append("caller:default-features")
         if derived and any(isinstance(t, str) and t == "" for t in eff):
@@ -1330,7 +1388,7 @@ class C20(Property):
         if driver is not None:
             if c.get("features") is None:      # the default term list: the model side is the Generated file (callers_wellformed)
                 return {"fails": fails, "tags": tags, "nontrivial": ncalls > 0, "impl": {"terms": [str(t) for t in eff], "outcome": outcome}, "model": None}
-            req = {"op": "callers", "kind": "synthetic" if c["kind"] == "synthetic" else "learner", "has_context": has_ctx,
+            req = {"op": "callers", "kind": "synthetic" if syn else "learner", "has_context": has_ctx,
                    "nctx": c.get("nctx", 1), "nact": c.get("nact", 1),
                    "features": [{"t": t} if isinstance(t, str) else {"n": t["n"]} for t in c["features"]]}
             ans = driver.ask(req)
@@ -1341,7 +1399,7 @@ class C20(Property):
             dd = lambda ts: [t for i, t in enumerate(ts) if t not in ts[:i]]
             nf = lambda ts: (sum((Fraction(t) for t in ts if not isinstance(t, str)), Fraction(0)), dd([t for t in ts if isinstance(t, str)]))
             ce, cm = nf(eff), nf(mterms)
-            same = (ce == cm) if c["kind"] == "synthetic" else (ce[0] == cm[0] and set(ce[1]) == set(cm[1]))
+            same = all(nf(r["terms"]) == cm for r in rec) if syn else (ce[0] == cm[0] and set(ce[1]) == set(cm[1]))
             if not same:
                 fails.append(F("A", "%s(features=%r, context %s) handed %r to InteractionsEncoder, the model says %r"
                                % (c["kind"], [t if isinstance(t, str) else num(t) for t in c["features"]], "present" if has_ctx else "empty", eff, mterms), "A:caller-terms"))
@@ -1540,17 +1598,22 @@ class C20(Property):
             if c.get("features") is None:
                 return "# %s with its default term list; see evaluate_caller in harness/props/c20.py\n" % c["kind"]
             feats = [t if isinstance(t, str) else num(t) for t in c["features"]]
-            if c["kind"] == "synthetic":
-                return ("import sys; sys.path.insert(0, %r)\nimport coba.environments.synthetics as m\n"
-                        "class Rec(m.InteractionsEncoder):\n    def __init__(self, i): print('terms', list(i)); super().__init__(i)\n"
-                        "m.InteractionsEncoder = Rec\nlist(m.LinearSyntheticSimulation(3, n_actions=2, n_context_features=%d, n_action_features=%d, n_coefficients=None, reward_features=%r, seed=%d).read())\n"
-                        % (os.environ.get("COBA_REPO", "/repo"), c["nctx"], c["nact"], feats, c.get("seed", 1)))
+            arg = caller_arg(c, feats)
+            if c["kind"] in ("synthetic", "synthetic_env"):
+                call = ("m.LinearSyntheticSimulation(3, n_actions=2, n_context_features=%d, n_action_features=%d, n_coefficients=None, reward_features=%r, seed=%d).read()"
+                        % (c["nctx"], c["nact"], arg, c.get("seed", 1))) if c["kind"] == "synthetic" else (
+                        "[i for e in Environments.from_linear_synthetic(3, n_actions=2, n_context_features=%d, n_action_features=%d, n_coefficients=None, reward_features=%r, seed=%r) for i in e.read()]"
+                        % (c["nctx"], c["nact"], arg, c.get("seeds", c.get("seed", 1))))
+                return ("import sys; sys.path.insert(0, %r)\nimport coba.environments.synthetics as m\nfrom coba.environments import Environments\n"
+                        "class Rec(m.InteractionsEncoder):\n    def __init__(self, i): print('encoder terms:', list(i)); super().__init__(i)\n"
+                        "m.InteractionsEncoder = Rec\nlist(%s)\n# the terms passed: %r (a bare str is one term)\n"
+                        % (os.environ.get("COBA_REPO", "/repo"), call, feats))
             return ("import sys; sys.path.insert(0, %r)\nimport coba.learners.%s as m   # needs numpy (the harness stubs it)\n"
                     "class Rec(m.InteractionsEncoder):\n    def __init__(self, i): print('terms', list(i)); super().__init__(i)\n"
                     "    def encode(self, **kw): r = super().encode(**kw); print(kw, '->', r); return r\n"
                     "m.InteractionsEncoder = Rec\nm.%s(features=%r).predict(%r, %r)\n"
                     % (os.environ.get("COBA_REPO", "/repo"), c["kind"], "LinUCBLearner" if c["kind"] == "linucb" else "LinTSLearner",
-                       feats, build_val_plain(c["context"]), [build_val_plain(a) for a in c["actions"]]))
+                       arg, build_val_plain(c["context"]), [build_val_plain(a) for a in c["actions"]]))
         calls = calls_of(case)
         lines = ["import sys, itertools; sys.path.insert(0, %r)" % os.environ.get("COBA_REPO", "/repo"),
                  "from coba.encodings import InteractionsEncoder"]
